@@ -556,6 +556,174 @@ pub fn run_loadclean(case: &Sx) -> Sx {
     Sx::L(vec![Sx::s("OK"), Sx::s(&written), floattable(&text), a2mltable(&text, &spec)])
 }
 
+/// BANNER case ( s<text> i<strict> s<banner> | () ): the file-based save cycle of A2lFile::write with an optional banner.
+/// answer ( sOK i<model after 1st reload == loaded> i<model after 2nd reload == loaded> i<2nd text == 3rd text> i<1st text == 2nd text> )
+///      | ( sERR s<stage> s<message> ) | ( sPANIC s<stage> ) | ( sNOLOAD )
+pub fn run_banner(case: &Sx) -> Sx {
+    static COUNTER: std::sync::atomic::AtomicUsize = std::sync::atomic::AtomicUsize::new(0);
+    let c = case.as_list();
+    let text = c[0].as_str();
+    let strict = c[1].as_int() != 0;
+    let banner: Option<String> = match &c[2] {
+        Sx::L(_) => None,
+        other => Some(other.as_str()),
+    };
+    let (file, _log) = match load(&text, &None, strict) {
+        Ok(Ok(v)) => v,
+        _ => return Sx::L(vec![Sx::s("NOLOAD")]),
+    };
+    let dir = std::path::Path::new("/verif/build/tmp");
+    let _ = std::fs::create_dir_all(dir);
+    let n = COUNTER.fetch_add(1, std::sync::atomic::Ordering::SeqCst);
+    let path = dir.join(format!("banner-{}-{}.a2l", std::process::id(), n));
+    let mut texts: Vec<Vec<u8>> = vec![];
+    let mut models_eq = vec![];
+    let mut cur = file.clone();
+    for round in 0..3 {
+        let w = catch_unwind(AssertUnwindSafe(|| cur.write(&path, banner.as_deref())));
+        match w {
+            Err(_) => { let _ = std::fs::remove_file(&path); return Sx::L(vec![Sx::s("PANIC"), Sx::s(&format!("write {round}"))]) }
+            Ok(Err(e)) => { let _ = std::fs::remove_file(&path); return Sx::L(vec![Sx::s("ERR"), Sx::s(&format!("write {round}")), Sx::s(&format!("{e}"))]) }
+            Ok(Ok(())) => {}
+        }
+        texts.push(std::fs::read(&path).unwrap_or_default());
+        if round == 2 {
+            break;
+        }
+        let l = catch_unwind(AssertUnwindSafe(|| a2lfile::load(&path, None, strict)));
+        match l {
+            Err(_) => { let _ = std::fs::remove_file(&path); return Sx::L(vec![Sx::s("PANIC"), Sx::s(&format!("load {round}"))]) }
+            Ok(Err(e)) => { let _ = std::fs::remove_file(&path); return Sx::L(vec![Sx::s("ERR"), Sx::s(&format!("load {round}")), Sx::s(&format!("{e}"))]) }
+            Ok(Ok((f, _))) => {
+                models_eq.push(f == file);
+                cur = f;
+            }
+        }
+    }
+    let _ = std::fs::remove_file(&path);
+    Sx::L(vec![
+        Sx::s("OK"),
+        Sx::b(models_eq[0]),
+        Sx::b(models_eq[1]),
+        Sx::b(texts[1] == texts[2]),
+        Sx::b(texts[0] == texts[1]),
+    ])
+}
+
+/// SORTDOC case ( s<text> ): load (non-strict), sort(), write.
+/// answer ( sOK ( ( s<module name> ( ( s<tag> s<name> )* ) )* ) i<written text loads> i<reloaded == sorted model>
+///              i<a second sort() changes nothing: model and text> ( s<module name in memory>* ) ) | ( sNOLOAD ) | ( sPANIC s<stage> )
+/// the tokens of A2L text outside strings and comments (strings are returned as one token, comments are dropped)
+fn plain_tokens(text: &str) -> Vec<&str> {
+    let b = text.as_bytes();
+    let mut out = vec![];
+    let mut i = 0;
+    while i < b.len() {
+        let c = b[i];
+        if c.is_ascii_whitespace() {
+            i += 1;
+        } else if c == b'"' {
+            let start = i;
+            i += 1;
+            while i < b.len() {
+                if b[i] == b'\\' {
+                    i += 2;
+                } else if b[i] == b'"' {
+                    if i + 1 < b.len() && b[i + 1] == b'"' {
+                        i += 2;
+                    } else {
+                        i += 1;
+                        break;
+                    }
+                } else {
+                    i += 1;
+                }
+            }
+            let end = i.min(b.len());
+            out.push(&text[start..end]);
+        } else if c == b'/' && i + 1 < b.len() && b[i + 1] == b'*' {
+            i += 2;
+            while i + 1 < b.len() && !(b[i] == b'*' && b[i + 1] == b'/') {
+                i += 1;
+            }
+            i = (i + 2).min(b.len());
+        } else if c == b'/' && i + 1 < b.len() && b[i + 1] == b'/' {
+            while i < b.len() && b[i] != b'\n' {
+                i += 1;
+            }
+        } else {
+            let start = i;
+            while i < b.len() && !b[i].is_ascii_whitespace() {
+                // a comment may follow a token without a blank
+                if b[i] == b'/' && i + 1 < b.len() && (b[i + 1] == b'*' || b[i + 1] == b'/') && i > start {
+                    break;
+                }
+                i += 1;
+            }
+            out.push(&text[start..i]);
+        }
+    }
+    out
+}
+
+pub fn run_sortdoc(case: &Sx) -> Sx {
+    let text = case.as_list()[0].as_str();
+    let (mut file, _log) = match load(&text, &None, false) {
+        Ok(Ok(v)) => v,
+        _ => return Sx::L(vec![Sx::s("NOLOAD")]),
+    };
+    if catch_unwind(AssertUnwindSafe(|| file.sort())).is_err() {
+        return Sx::L(vec![Sx::s("PANIC"), Sx::s("sort")]);
+    }
+    let Ok(written) = catch_unwind(AssertUnwindSafe(|| file.write_to_string())) else {
+        return Sx::L(vec![Sx::s("PANIC"), Sx::s("write")]);
+    };
+    // the elements of every MODULE in the order of the written text: tag and first token behind it
+    let toks: Vec<&str> = plain_tokens(&written);
+    let mut depth = 0usize;
+    let mut modules: Vec<(String, Vec<Sx>)> = vec![];
+    let mut i = 0;
+    while i < toks.len() {
+        if toks[i] == "/begin" && i + 1 < toks.len() {
+            depth += 1;
+            if depth == 2 && toks[i + 1] == "MODULE" {
+                modules.push((toks.get(i + 2).unwrap_or(&"").to_string(), vec![]));
+            } else if depth == 3 {
+                if let Some(m) = modules.last_mut() {
+                    m.1.push(Sx::L(vec![Sx::s(toks[i + 1]), Sx::s(toks.get(i + 2).unwrap_or(&""))]));
+                }
+            }
+            i += 2;
+            continue;
+        }
+        if toks[i] == "/end" {
+            depth = depth.saturating_sub(1);
+            i += 2;
+            continue;
+        }
+        i += 1;
+    }
+    let reloaded = catch_unwind(AssertUnwindSafe(|| a2lfile::load_from_string(&written, None, false)));
+    let (loads, eq) = match &reloaded {
+        Ok(Ok((r, _))) => (true, *r == file),
+        _ => (false, false),
+    };
+    let mut again = file.clone();
+    let idem = catch_unwind(AssertUnwindSafe(|| {
+        again.sort();
+        again == file && again.write_to_string() == written
+    }))
+    .unwrap_or(false);
+    Sx::L(vec![
+        Sx::s("OK"),
+        Sx::L(modules.into_iter().map(|(n, els)| Sx::L(vec![Sx::s(&n), Sx::L(els)])).collect()),
+        Sx::b(loads),
+        Sx::b(eq),
+        Sx::b(idem),
+        Sx::L(file.project.module.iter().map(|m| Sx::s(a2lfile::A2lObjectName::get_name(m))).collect()),
+    ])
+}
+
 pub fn run_tokens(case: &Sx) -> Sx {
     let text = case.as_list()[0].as_str();
     match catch_unwind(AssertUnwindSafe(|| a2lfile::verif_hooks::tokenize("", &text))) {
